@@ -1,6 +1,6 @@
 """C19 - an interrupted signature-file write never yields a loadable wrong file.
 
-E-fault on the real POSIX driver of HDF5, real SIGKILLed writer processes, the real load_signatures as judge:
+E-fault on the real POSIX driver of HDF5, real writer processes killed by SIGKILL (and, at L1 points, by SIGTERM and SIGINT with the process's own signal handling), the real load_signatures as judge:
   L1  between storage-library calls: the child wraps AttributeManager.__setitem__, Group.create_dataset, Dataset.__setitem__, File.close
       with a counter and SIGKILLs itself before call n, for every n, and after the last one;
   L2  between write system calls: native/killwrite.c (LD_PRELOAD) kills the process before the first / after the n-th write-type system call
@@ -25,7 +25,7 @@ RULE = ('every crash point of every configuration: L1 = before each h5py call of
         'system call on the file; one case = one real writer process killed at that point + one real load of what it left; non-trivial = the file left '
         'behind is non-empty (something was written before the kill)')
 ASSUMPTIONS = [
-	'fault model = process death: completed system calls persist, in order; power loss (reordered or torn writes) is not what the property says and is not injected',
+	'fault model = process death (SIGKILL at every point; SIGTERM and SIGINT at every library-call boundary, where Python-level handlers run): completed system calls persist, in order; power loss (reordered or torn writes) is not what the property says and is not injected',
 	'one HDF5 version (2.0.0 as installed), POSIX (sec2) driver',
 	'a file whose open succeeds but whose data cannot be read back (late error) counts as refused-with-an-error, reported separately',
 ]
@@ -52,6 +52,11 @@ def plan(tier, seed):
 	for c in cfgs:
 		for level in ('L1', 'L2'):
 			tasks.append(('t_crash', dict(cfg=c, level=level)))
+		# other ways for the writer process to die at an L1 boundary: SIGTERM and SIGINT, delivered to the real process with whatever signal
+		# handling it has (Python turns SIGINT into KeyboardInterrupt, so context managers run and the file is closed on the way out)
+		if tier != 'quick' or c['payload'] != 'medium':
+			for death in ('term', 'int'):
+				tasks.append(('t_crash', dict(cfg=c, level='L1', death=death)))
 	return tasks
 
 
@@ -134,9 +139,13 @@ def child_main(argv):
 		import h5py
 		state = dict(k=0)
 
+		sig = dict(kill=signal.SIGKILL, term=signal.SIGTERM, int=signal.SIGINT)[os.environ.get('C19_DEATH', 'kill')]
+
 		def boundary():
 			if state['k'] == n:
-				os.kill(os.getpid(), signal.SIGKILL)
+				state['k'] += 1
+				os.kill(os.getpid(), sig)          # SIGTERM / SIGINT: whatever handler the writer's process has installed decides how it dies
+				return
 			state['k'] += 1
 
 		def wrap(cls, name):
@@ -217,8 +226,9 @@ def opens_as_hdf5(path):
 		return False, False
 
 
-def t_crash(cfg, level):
+def t_crash(cfg, level, death='kill'):
 	sh = Shard()
+	denv = dict(C19_DEATH=death)
 	shim = os.path.join(build.NBUILD, 'libkillwrite.so')
 	with fixtures.workdir('c19') as d:
 		if cfg['path'] == 'cli-create':
@@ -269,8 +279,8 @@ def t_crash(cfg, level):
 			if level == 'L2':
 				r = run_child(cfg, p, 'none', -1, dict(LD_PRELOAD=shim, KILLWRITE_TARGET=f'crash{n}.gs', KILLWRITE_AT=str(n)))
 			else:
-				r = run_child(cfg, p, 'L1', n)
-			killed = r.returncode == -signal.SIGKILL
+				r = run_child(cfg, p, 'L1', n, denv)
+			killed = r.returncode == -signal.SIGKILL if death == 'kill' else r.returncode != 0
 			size = os.path.getsize(p) if os.path.exists(p) else -1
 			v, det = judge(p, expected)
 			oh = opens_as_hdf5(p) if v == 'rejected' and size > 0 else (v in ('equal', 'late-error', 'DIFFERENT'), v != 'rejected')
@@ -284,7 +294,11 @@ def t_crash(cfg, level):
 		for n, killed, size, v, det, oh, err in results:
 			sh.evals += 1
 			case = dict(cfg={k: v for k, v in cfg.items() if k != 'files'}, level=level, point=n, of=last)
-			if not killed and not (level == 'L1' and n == last and False):
+			if death != 'kill':
+				case['death'] = death
+			if not killed and death != 'kill' and v == 'equal':
+				sh.count('writer_survived_signal_and_completed')       # a writer may handle the signal and finish; then the file must be complete
+			elif not killed:
 				raise HarnessError(f'writer was not killed at point {n} of {last} ({cfg}, {level}): rc stderr={err}')
 			if v == 'DIFFERENT':
 				sh.violation('partial-file-loads-as-different-collection', case, 'rejected or equal', det)
@@ -298,9 +312,9 @@ def t_crash(cfg, level):
 					sh.count('rejected_although_it_opens_as_hdf5')
 				if oh[1]:
 					sh.count('rejected_with_marker_visible')
-			sh.outcome([level, v, det])
-		sh.extra = dict(cfg={k: v for k, v in cfg.items() if k != 'files'}, level=level, points=len(points), verdicts=[r[3] for r in results], **extra)
-	sh.sample(dict(cfg={k: v for k, v in cfg.items() if k != 'files'}, level=level, points=len(points), verdict_by_point=[r[3] for r in results]))
+			sh.outcome([level, death, v, det])
+		sh.extra = dict(cfg={k: v for k, v in cfg.items() if k != 'files'}, level=level, death=death, points=len(points), verdicts=[r[3] for r in results], **extra)
+	sh.sample(dict(cfg={k: v for k, v in cfg.items() if k != 'files'}, level=level, death=death, points=len(points), verdict_by_point=[r[3] for r in results]))
 	return sh
 
 
@@ -308,7 +322,7 @@ def finalize(agg, tier):
 	agg.require('nonempty_file_rejected', 10)
 	agg.require('points_equal', 4)
 	agg.require('rejected_although_it_opens_as_hdf5', 1)
-	agg.coverage_extra['per_configuration'] = [dict(cfg=e['cfg'], level=e['level'], points=e['points'], verdicts=e['verdicts'],
+	agg.coverage_extra['per_configuration'] = [dict(cfg=e['cfg'], level=e['level'], death=e.get('death', 'kill'), points=e['points'], verdicts=e['verdicts'],
 	                                                 strace_matches_injector_count=e.get('strace_matches_injector_count')) for e in agg.extra]
 
 
@@ -328,7 +342,7 @@ def replay(case, kind=None):
 		elif level == 'L2':
 			run_child(cfg, p, 'none', -1, dict(LD_PRELOAD=shim, KILLWRITE_TARGET='replay.gs', KILLWRITE_AT=str(n)))
 		else:
-			run_child(cfg, p, 'L1', n)
+			run_child(cfg, p, 'L1', n, dict(C19_DEATH=case.get('death', 'kill')))
 		v, det = judge(p, (ks, arrs, ids, meta))
 		if v == 'DIFFERENT' or (n == 'complete' and v != 'equal'):
 			sh.violation(kind or 'partial-file-loads-as-different-collection', case, 'rejected or equal', f'{v}: {det}')
